@@ -205,8 +205,11 @@ def gen_edit_ops(rng, cspec, labels, n_ops):
         elif r < 0.65:
             s = float(rng.randrange(0, 30))
             ops.append(["add", rng.choice(names), s, s + float(rng.randint(1, 6)), rng.choice(labels)])
-        elif r < 0.8:
+        elif r < 0.75:
             ops.append(["remove_random", rng.randrange(10 ** 6)])
+        elif r < 0.8:
+            # a removal that is refused (the annotator does not hold that unit): the caller catches the documented KeyError
+            ops.append(["remove_absent", rng.choice(names), 1234.5 + rng.randrange(100), rng.choice(labels)])
         elif r < 0.9:
             # a unit far away from everything, added and taken out again (a mistake corrected): the continuum's units are
             # what they were, only its bounds remember the outlier
@@ -234,6 +237,12 @@ def apply_edit(continuum, op):
         if len(units) > 1:
             a, u = units[op[1] % len(units)]
             continuum.remove(a, u)
+    elif kind == "remove_absent":
+        from pygamma_agreement.continuum import Unit
+        try:
+            continuum.remove(op[1], Unit(Segment(op[2], op[2] + 1.0), op[3]))
+        except (KeyError, ValueError):
+            pass
     elif kind == "touch_far":
         continuum.add(op[1], Segment(op[2], op[3]), op[4])
         continuum.remove(op[1], [u for u in continuum[op[1]] if u.segment == Segment(op[2], op[3])][0])
